@@ -537,10 +537,16 @@ val as_kv : store -> pyval -> (atom * pyval) option
 type variant =
 | New
 | Old
+| PopInPlace
 
 val idict_of_seq : store -> pyval list -> (pyval * store) result
 
 val idict_init : variant -> store -> pyval -> (pyval * store) result
+
+val popped : atom -> (atom * 'a1) list -> 'a1 -> 'a1
+
+val copy_pop :
+  variant -> nat -> store -> pyval -> atom -> ((pyval * pyval) * store) result
 
 val tuplify : store -> pyval -> pyval result
 
@@ -608,7 +614,7 @@ val k_XH : bytes
 val xH_KEY : atom
 
 val post_revision :
-  nat -> bytes -> field_row list -> pyval list -> store -> (pyval
+  variant -> nat -> bytes -> field_row list -> pyval list -> store -> (pyval
   list * store) result
 
 val construct :
@@ -646,15 +652,16 @@ val obj_mutate : store -> pyval -> channel -> (err * store) * pyval
 type step =
 | SMut of mut
 | SChan of channel
+| SCopyPop of atom
 
 val run_steps :
-  (rval -> atom) -> (rval -> n) -> nat -> store -> pyval -> step list -> (err
-  option * observation) list
+  (rval -> atom) -> (rval -> n) -> variant -> nat -> store -> pyval -> step
+  list -> (err option * observation) list * store
 
 val run_script :
   (rval -> atom) -> (rval -> n) -> variant -> nat -> route -> bytes -> store
-  -> pyval list -> step list -> (observation * (err option * observation)
-  list) result
+  -> pyval list -> step list -> pyval list -> (((observation * (err
+  option * observation) list) * observation list) * observation list) result
 
 val run_twins :
   (rval -> atom) -> variant -> nat -> bytes -> store -> pyval list -> pyval
